@@ -59,6 +59,14 @@ theorem wf_userCb (h : WfS a none) (hp : tok ∈ a.pendingToks)
 theorem debt_userCb {x d} (h : WfS a none) (hd : DebtOk x d a) : DebtOk x d (a.userCb tok) :=
   ⟨hd.fresh, fun c hc hp hx => hd.cnt c hc ((List.Nodup.mem_erase_iff h.tok.pN).mp hp).2 hx⟩
 
+/-- the compound request whose bookkeeping is not settled (it is completing) holds the token being called
+    back, so after the callback it is no longer active and the debt invariant holds without exception -/
+theorem debt_userCb' {x d} (h : WfS a none) (hd : DebtOk x d a) (hx : ∀ c ∈ a.clients, some c.id = x → c.tok = tok) :
+    DebtOk none d (a.userCb tok) :=
+  ⟨hd.fresh, fun c hc hp _ => by
+    have hm := (List.Nodup.mem_erase_iff h.tok.pN).mp hp
+    exact hd.cnt c hc hm.2 (fun he => hm.1 (hx c hc he))⟩
+
 theorem step_userCb {xf xi d} (h : WfS a none) (hz : ∀ c ∈ a.clients, c.tok = tok → d c.id = 0) :
     StepS xf xi d a (a.userCb tok) where
   faults := rfl
